@@ -1198,3 +1198,65 @@ pub fn gen_tls_lazy(rng: &mut Rng) -> Program {
     }
     p
 }
+
+// ------------------------------------------------------------------------------------------
+// futures family (C20): one thread blocks on a future, 1-2 threads set the flag and wake
+
+pub fn gen_future(rng: &mut Rng) -> Program {
+    let mut vs = ValueSrc::new();
+    let n_wakers = rng.range(1, 2);
+    let nt = n_wakers + 1;
+    let two_rounds = rng.chance(1, 4);
+    let mut p = Program { atomics: vec![0; if two_rounds { 2 } else { 1 }], ..Default::default() };
+    p.threads = vec![Vec::new(); nt];
+    let reg_first = rng.chance(4, 5);
+    let ord_l = *rng.pick(&[MO::Acq, MO::Sc, MO::Rlx]);
+    let ord_s = *rng.pick(&[MO::Rel, MO::Sc, MO::Rlx]);
+    let v0 = vs.constant();
+    let v1 = vs.constant();
+    // wakers
+    let mut bodies: Vec<Vec<Op>> = vec![Vec::new(); nt];
+    let setter = 1 + rng.below(n_wakers);
+    for t in 1..nt {
+        if t == setter {
+            bodies[t].push(Op::Store { a: 0, v: v0, o: ord_s });
+            if !rng.chance(1, 8) {
+                bodies[t].push(Op::AwWake);
+            }
+            if two_rounds {
+                bodies[t].push(Op::Store { a: 1, v: v1, o: ord_s });
+                bodies[t].push(Op::AwWake);
+            }
+        } else {
+            // a second thread that wakes without setting (stray wake) or wakes early
+            match rng.below(3) {
+                0 => bodies[t].push(Op::AwWake),
+                1 => {
+                    bodies[t].push(Op::Load { a: 0, o: ord_l });
+                    bodies[t].push(Op::AwWake);
+                }
+                _ => {
+                    bodies[t].push(Op::AwWake);
+                    bodies[t].push(Op::AwWake);
+                }
+            }
+        }
+    }
+    for t in 1..nt {
+        p.threads[0].push(Op::Spawn { t: t as u8 });
+    }
+    p.threads[0].push(Op::BlockOn { a: 0, v: v0, o: ord_l, reg_first });
+    if two_rounds {
+        p.threads[0].push(Op::BlockOn { a: 1, v: v1, o: ord_l, reg_first });
+    }
+    if rng.chance(1, 2) {
+        p.threads[0].push(Op::Load { a: 0, o: MO::Rlx });
+    }
+    for t in 1..nt {
+        p.threads[0].push(Op::Join { t: t as u8 });
+    }
+    for t in 1..nt {
+        p.threads[t] = std::mem::take(&mut bodies[t]);
+    }
+    p
+}
